@@ -15,6 +15,9 @@ Enumerated (quick is a sub-space of thorough; see cases()):
   xls     FILEPASS at every record index of the globals substream, stream "Workbook" / "Book" vs plain workbooks with 2F 00 in
           cell payloads at every alignment (row 47, column 47, SST index 47, RK / NUMBER values, doubles with the pair at byte 0..6,
           UTF-16 strings with the pair at even and odd offsets, sheet name)
+          STREAM NAME SPELLING: the BIFF stream stored as WORKBOOK / workbook / WorkBook / wORKBOOK / BOOK / book / bOOK (names in a compound
+          file compare case-insensitively, [MS-CFB] 2.6.4; non-Excel producers write such spellings): FILEPASS at index 1 and last
+          (thorough: every index) and the 4 other FILEPASS payloads = encrypted; plain workbook and the "all" look-alike = plain
   ppt     pptbin encrypted True / "keep_docprops" x layout x Current User stream vs plain
   doc     .doc fixtures with the FIB fEncrypted bit (0x0100 of the flags word at 0x0A) toggled, both directions; and the
           NEIGHBOUR-BIT family: every other bit of the FibBase header words around it flipped alone (a plain file stays plain, the
@@ -29,8 +32,19 @@ Enumerated (quick is a sub-space of thorough; see cases()):
           quick: text 140000 + image 66000 in one document (RC4-40, RC4-128, AES-128, AES-256-R5), text 65536 (RC4, AES-128), text
           65535 / 65537 (RC4); thorough: all 5 algorithms x {text 2^k - 1, 2^k, 2^k + 1 for k = 12, 14, 16, 17; text 200000; image
           65536, 140000; text 140000 + image 66000}, the largest document also with owner / user passwords, through all seams, "warm"
-  zip     flag bit 0 (forged) / real ZipCrypto / WinZip-AES (method 99) / strong-encryption flag on member k for every k (and pairs) vs unsupported method / bad CRC / other flags
+  cfb     ENTRY NAME CASE ("cfbcase": [entry | "*", upper | lower | swap]): the compound files of the ooxml shell (EncryptionInfo, EncryptedPackage,
+          \x06DataSpaces), ppt (PowerPoint Document, Current User, EncryptedSummary; encrypted and plain) and doc (WordDocument; fEncrypted toggled both
+          ways) families with the case of ONE directory entry name, or of ALL, changed in place: the expectation stays what it was
+  zip     member kinds t text, b unsupported type, h hidden, s sub directory, z nested archive, m __MACOSX;
+          flag bit 0 (forged) / real ZipCrypto / WinZip-AES (method 99) / strong-encryption flag on member k for every k (and pairs) vs unsupported method / bad CRC / other flags
   7z      7zAES coder in folder k for every layout x coder x chaining x header coding, 7zAES on the encoded header, vs plain
+          MEMBER NAMES ("names", one letter per member: t text file, b unsupported type, h hidden, z nested archive, e empty file that
+          owns no stream, s sub directory, m __MACOSX): every word over the alphabet (except all-t) x layout x AES folder k x chaining x
+          header coding = encrypted (the AES folder may hold only members the reader never extracts, the extractable ones may sit in plain
+          folders or be empty), and the same archives without AES = plain.  quick: alphabet tbhze, 1..2 members, coder copy; thorough:
+          tbhzesm for 1..2 members (3 coders), tbhze for 3 members (copy, lzma2)
+          DECLARED SIZE: the AES folder (one stream) declares an unpack size of 10 MiB + 1, over the reader's per-member limit = encrypted;
+          the same forged size without AES = plain
   epub    encryption.xml with EncryptedData for content document k / all, rights.xml, both, vs plain and look-alikes
           MIXED encryption.xml ("encmix"): a book with n content documents and one embedded font; encryption.xml declares for every
           content document one of {nothing, aes128-cbc, aes256-cbc, aes256-gcm (xmlenc11), EncryptedData without EncryptionMethod} and for the font one of {nothing, IDPF font
@@ -98,6 +112,11 @@ XLS_PROTECT = ["PROTECT", "PASSWORD", "WINDOWPROTECT", "OBJPROTECT", "SCENPROTEC
 OOXML_PROTECT = {"docx": ["documentProtection", "writeProtection", "all"], "xlsx": ["sheetProtection", "workbookProtection", "fileSharing", "all"],
                  "pptx": ["modifyVerifier"]}
 ODF_PROTECT = {"ods": ["table"], "odt": ["section"]}
+# spellings of the BIFF stream name that differ from Excel's "Workbook" / "Book" in case only (names in a compound file compare case-insensitively)
+XLS_SPELLINGS = ["WORKBOOK", "workbook", "WorkBook", "wORKBOOK", "BOOK", "book", "bOOK"]
+# 7z member kinds: t supported text, b unsupported type, h hidden, z nested archive, e empty file (owns no stream), s sub directory, m __MACOSX
+SEVENZ_KINDS_QUICK = "tbhze"
+SEVENZ_KINDS_ALL = "tbhzesm"
 ZIP_FLAG_UNSETTLED = (6, 13)        # alone (without bit 0): strong-encryption / masked-local-header bits, meaning not settled
 DOC_FIXTURES = ["legacy_ms/Speech_Prime_Minister_of_The_Netherlands_EN.doc", "legacy_ms/headings.doc",
                 "legacy_ms/password_protected/doc-password-protected-pw123.doc"]
@@ -777,6 +796,10 @@ def _zip_member(kind, i, tk):
         return {"name": f".m{i}.txt", "data": ("hidden " + tk.new("Z") + "\n").encode()}
     if kind == "s":
         return {"name": f"sub/dir/m{i}.txt", "data": ("deep " + tk.new("B") + "\n").encode()}
+    if kind == "z":         # a nested archive (by name): never opened by the archive reader
+        return {"name": f"m{i}.zip", "data": _dummy(48, "zip%d" % i)}
+    if kind == "m":         # resource-fork folder of macOS archives: skipped like a hidden file
+        return {"name": f"__MACOSX/m{i}.txt", "data": ("fork " + tk.new("Z") + "\n").encode()}
     raise ValueError(kind)
 
 
@@ -829,10 +852,28 @@ def sevenz_folders(n, layout):
     return 1 if layout == "solid" or n < 2 else (n if layout == "per_file" else 2)
 
 
+SEVENZ_OVER_LIMIT = 10 * 1024 * 1024 + 1          # one byte more than the per-member limit of the archive reader (10 MiB)
+
+
+def sevenz_streams(names):
+    """number of members that own a data stream ("e" = empty file: listed, but in no folder)"""
+    return sum(1 for k in names if k != "e")
+
+
+def _7z_member(kind, i, tk):
+    if kind == "e":
+        return {"name": f"m{i}.txt", "data": b""}
+    m = _zip_member(kind, i, tk)
+    return {"name": m["name"], "data": m["data"]}
+
+
 def build_7z(fmt, case):
     from verif.gen import sevenz
     tk = _tk()
-    members = [{"name": f"m{i}.txt", "data": ("text " + tk.new("B") + "\n").encode()} for i in range(case["n"])]
+    names = case.get("names") or "t" * case["n"]
+    if len(names) != case["n"] or not sevenz_streams(names):
+        raise ValueError("7z case %r" % (case,))
+    members = [_7z_member(kind, i, tk) for i, kind in enumerate(names)]
     opts = {"coder": case["coder"], "layout": case["layout"], "header": case["header"]}
     k = case["k"]
     if k == "enc":
@@ -842,7 +883,63 @@ def build_7z(fmt, case):
         opts["header"] = "encoded"
         opts["header_aes"] = case["mode"]
         opts["header_coder"] = case["hcoder"]
+    if case.get("declared") == "over":
+        # the folder (exactly one stream) DECLARES an unpack size over the reader's per-member limit: the member is dropped by the
+        # pre-filter before anything is decompressed.  (Forged size: the plain variant is an invalid archive, but not an encrypted one.)
+        opts["unpack_size_override"] = {case.get("folder", 0): SEVENZ_OVER_LIMIT}
     return {"data": sevenz.sevenz(members, opts), "ext": "7z", "expect": "plain" if k == "plain" else "enc"}
+
+
+# ------------------------------------------------------------------------------------------------ compound file name spelling
+CFB_MODES = {"upper": str.upper, "lower": str.lower, "swap": str.swapcase}
+
+
+def cfb_entries(data):
+    """[(sid, name, file offset of the 128-byte directory entry)] of every storage / stream except the root entry"""
+    import olefile
+    out = []
+    with olefile.OleFileIO(io.BytesIO(data)) as ole:
+        ss = ole.sectorsize
+        chain, sect = [], ole.first_dir_sector
+        while sect not in (0xFFFFFFFE, 0xFFFFFFFF) and len(chain) <= len(ole.fat):
+            chain.append(sect)
+            sect = ole.fat[sect]
+        per = ss // 128
+        for sid in range(1, len(chain) * per):
+            off = (chain[sid // per] + 1) * ss + (sid % per) * 128
+            ln, typ = struct.unpack_from("<HB", data, off + 64)
+            if typ in (1, 2) and 2 <= ln <= 64:
+                out.append((sid, data[off:off + ln - 2].decode("utf-16-le"), off))
+    return out
+
+
+def cfb_respell(data, target, mode):
+    """Change the CASE of the directory entry name `target` ("*": of every entry) - [MS-CFB] 2.6.4: names compare case-insensitively
+    (upper-cased code units), so the red-black tree stays ordered and the file denotes the same streams.  None if nothing changes."""
+    import olefile
+    f = CFB_MODES[mode]
+    out = bytearray(data)
+    todo = [(sid, nm, off) for sid, nm, off in cfb_entries(data) if target in ("*", nm) and f(nm) != nm]
+    if target != "*" and len(todo) > 1:
+        raise AssertionError("entry name %r occurs more than once" % (target,))
+    for sid, nm, off in todo:
+        new = f(nm)
+        if len(new) != len(nm) or new.upper() != nm.upper():
+            raise AssertionError("case mapping of %r changes more than the case" % (nm,))
+        out[off:off + 2 * len(nm)] = new.encode("utf-16-le")
+    if not todo:
+        return None
+    out = bytes(out)
+    # self-check: same tree, same stream contents, under the new names
+    with olefile.OleFileIO(io.BytesIO(data)) as a, olefile.OleFileIO(io.BytesIO(out)) as b:
+        la, lb = a.listdir(streams=True, storages=True), b.listdir(streams=True, storages=True)
+        want = [[f(x) if target in ("*", x) else x for x in path] for path in la]
+        if sorted(lb) != sorted(want):          # (olefile lists the children of a storage in code-point order)
+            raise AssertionError("respelled directory is not what it should be: %r vs %r" % (lb, want))
+        for pa, pb in zip(la, want):
+            if a.get_type(pa) == olefile.STGTY_STREAM and a.openstream(pa).read() != b.openstream(pb).read():
+                raise AssertionError("stream %r changed" % (pa,))
+    return out
 
 
 XMLENC = "http://www.w3.org/2001/04/xmlenc#"
@@ -1028,6 +1125,10 @@ def judge(expect, seam, obs, ref):
 def evaluate(fmt, case):
     """-> (fails, outcome class, sample info) ; outcome None = inexpressible combination"""
     b = builder(fmt)(fmt, {k: v for k, v in case.items() if k != "seam"})
+    if b is not None and case.get("cfbcase"):
+        # the same compound file with the case of a directory entry name (or of all) changed: same expectation
+        data = cfb_respell(b["data"], case["cfbcase"][0], case["cfbcase"][1])
+        b = None if data is None else dict(b, data=data)
     if b is None:
         return [], None, None
     seam = case["seam"]
@@ -1062,6 +1163,7 @@ def reexec(fmt, case):
 NEUTRAL = {"seam": "direct", "doc": 0, "size": 4096, "ver": 3, "method": 0, "stream": "Workbook", "playout": "ppt", "cu": True,
            "spell": "manifest", "xspell": "default", "layout": "solid", "coder": "copy", "header": "plain", "rights": False, "owner": "",
            "hcoder": "copy", "oext": "docx", "ext": "odt", "where": "path", "mode": "single", "order": "font-last"}
+CFB_KNOWN_NAMES = ["EncryptedPackage", "EncryptionInfo", "\x06DataSpaces", "PowerPoint Document", "Current User", "EncryptedSummary", "WordDocument"]
 # NEUTRAL is not applied to the families whose parameter space is tied to the value: "oext"/"ext" of the protection families (the
 # variants are per format)
 
@@ -1080,8 +1182,35 @@ def shrinks(case):
             c = dict(case)
             c[key] = nv
             if key == "layout" and "folder" in c:
+                if c.get("declared") and c.get("n", 1) > 1:
+                    continue                # a declared size needs a folder of one stream
                 c["folder"] = 0
             yield c
+    if case.get("cfbcase"):
+        c = dict(case)
+        del c["cfbcase"]
+        yield c
+        tg, mode = case["cfbcase"]
+        if tg == "*":
+            for name in CFB_KNOWN_NAMES:            # one entry instead of all (a name the file does not hold: inexpressible, never failing)
+                c = dict(case)
+                c["cfbcase"] = [name, mode]
+                yield c
+        if mode != "upper":
+            c = dict(case)
+            c["cfbcase"] = [tg, "upper"]
+            yield c
+    if case.get("declared"):
+        c = dict(case)
+        del c["declared"]
+        yield c
+    if "names" in case:
+        for i, kind in enumerate(case["names"]):
+            if kind != "t":
+                c = dict(case)
+                c["names"] = case["names"][:i] + "t" + case["names"][i + 1:]
+                if sevenz_folders(sevenz_streams(c["names"]), c["layout"]) == sevenz_folders(sevenz_streams(case["names"]), case["layout"]):
+                    yield c
     if len(case.get("bits", [])) > 1:
         for b in case["bits"]:
             c = dict(case)
@@ -1133,7 +1262,10 @@ def shrinks(case):
         c = dict(case)
         c["n"] = case["n"] - 1
         ok = True
-        if "folder" in c and c["folder"] >= sevenz_folders(c["n"], c["layout"]):
+        if "names" in c:
+            c["names"] = case["names"][:-1]
+            ok = sevenz_streams(c["names"]) > 0
+        if "folder" in c and c["folder"] >= sevenz_folders(sevenz_streams(c["names"]) if "names" in c else c["n"], c["layout"]):
             ok = False
         if isinstance(c.get("target"), int) and c["target"] >= c["n"]:
             ok = False
@@ -1187,6 +1319,24 @@ def embeds(small, big):
             continue
         if key == "bits":
             if not set(v) <= set(big.get("bits", [])):
+                return False
+            continue
+        if key == "stream":                 # one non-Excel spelling of the stream name stands for the others of the same name
+            bs = big.get("stream")
+            if bs != v and not (isinstance(bs, str) and bs.upper() == v.upper() and v not in ("Workbook", "Book") and bs not in ("Workbook", "Book")):
+                return False
+            continue
+        if key == "names":                  # the small archive's special members (not plain text files) occur in the big one
+            have = list(big.get("names", ""))
+            for kind in v:
+                if kind != "t":
+                    if kind not in have:
+                        return False
+                    have.remove(kind)
+            continue
+        if key == "cfbcase":                # the same entry respelled (or all of them), in the same way ("upper" stands for any)
+            bc = big.get("cfbcase")
+            if not bc or (bc[0] not in ("*", v[0])) or (v[1] != "upper" and bc[1] != v[1]):
                 return False
             continue
         if key == "algs":                   # the small book's cipher entries occur in the big one
@@ -1283,6 +1433,41 @@ def base_cases(tier):
                     yield "xls", {"k": "protect", "v": v, "at": at, "stream": stream, "doc": d}, all_seams if (d == 0 and (not q or v == "all")) else ["direct"]
         for v in XLS_LOOKS:
             yield "xls", {"k": "look", "v": v, "stream": stream}, all_seams if (not q or v == "all") else ["direct"]
+    # stream name spelled in another case: still the workbook stream, FILEPASS still means encrypted
+    for stream in XLS_SPELLINGS:
+        for d in (0, 2):
+            n = xls_globals_len(d)
+            for at in (range(1, n) if not q and d == 0 else (1, n - 1)):
+                yield "xls", {"k": "filepass", "at": at, "stream": stream, "doc": d}, all_seams if (at == 1 and d == 0) else ["direct"]
+            for v in XLS_FILEPASS_VARIANTS:
+                if v != "rc4":
+                    yield "xls", {"k": "filepass-v", "v": v, "at": 1, "stream": stream, "doc": d}, ["direct"]
+            yield "xls", {"k": "plain", "doc": d, "stream": stream}, all_seams if d == 0 else ["direct"]
+        yield "xls", {"k": "look", "v": "all", "stream": stream}, ["direct"]
+        if not q:
+            for rid in XLS_NEAR_IDS:
+                yield "xls", {"k": "nearid", "id": rid, "at": 1, "stream": stream, "doc": 0}, ["direct"]
+    # ---- compound file entry names in another case (every entry alone, all at once): OOXML shell, PPT, DOC
+    for mode in CFB_MODES:
+        for fmt in ("docx", "xlsx", "pptx"):
+            for streams in ([OOXML_STREAMS, ["EncryptedPackage"]] if q else [x for x in _subsets(OOXML_STREAMS) if x]):
+                for ver in ((3,) if q else (3, 4)):
+                    for tg in [("\x06" + x if x == "DataSpaces" else x) for x in streams] + (["*"] if len(streams) > 1 else []):
+                        yield "ooxml", {"k": "shell", "oext": fmt, "streams": streams, "size": 4096, "ver": ver, "cfbcase": [tg, mode]}, \
+                            all_seams if (fmt == "docx" and tg in ("EncryptedPackage", "*") and ver == 3 and len(streams) != 2) else ["direct"]
+        for pmode in (True, "keep_docprops", None):
+            for playout in (("ppt",) if q else ("ppt", "lo")):
+                for tg in ("PowerPoint Document", "Current User", "EncryptedSummary", "*"):
+                    if pmode is None and tg != "*" and q:
+                        continue
+                    c = {"k": "enc" if pmode else "plain", "playout": playout, "cu": True, "doc": 0, "cfbcase": [tg, mode]}
+                    if pmode:
+                        c["pmode"] = pmode
+                    yield "ppt", c, all_seams if tg == "*" else ["direct"]
+        for f in DOC_FIXTURES:
+            for tgl in (False, True):
+                for tg in (("WordDocument",) if q else ("WordDocument", "*")):
+                    yield "doc", {"k": "fib", "file": f, "toggle": tgl, "cfbcase": [tg, mode]}, all_seams if (tgl and mode == "upper" or not q) else ["direct"]
     # ---- PPT
     for playout in ("ppt", "lo"):
         for cu in (True, False):
@@ -1358,7 +1543,7 @@ def base_cases(tier):
     maxn = 3
     for nmem in range(1, maxn + 1):
         for i in range(nmem):
-            for kind in ("t", "b", "h", "s"):
+            for kind in ("t", "b", "h", "s", "z", "m"):
                 kinds = ["t"] * nmem
                 kinds[i] = kind
                 for how in ("flag", "crypto", "winzip-aes", "strong"):
@@ -1397,6 +1582,37 @@ def base_cases(tier):
                 for mode in ("single", "chain"):
                     yield "7z", {"k": "enc-header", "n": nmem, "layout": "solid", "coder": coder, "header": "encoded", "hcoder": hcoder, "mode": mode}, \
                         all_seams if (coder == "copy" and hcoder == "copy") or not q else ["direct"]
+    # member NAMES: the AES folder holds members the reader never extracts (unsupported type, hidden, nested archive), or the only
+    # extractable members are empty files / live in plain folders; and plain archives of such members
+    for nmem in range(1, 3 if q else 4):
+        kinds = SEVENZ_KINDS_QUICK if q or nmem == 3 else SEVENZ_KINDS_ALL
+        for names in ("".join(x) for x in itertools.product(kinds, repeat=nmem)):
+            ns = sevenz_streams(names)
+            if not ns or set(names) == {"t"}:
+                continue                # no data stream at all: nothing can be encrypted; all "t": the family above
+            for layout in ("solid", "per_file", "two_folders"):
+                if layout != "solid" and (ns < 2 or (layout == "two_folders" and ns == 2)):
+                    continue            # the same archive as "solid" / "per_file"
+                for coder in (("copy",) if q else ("copy", "lzma2") if nmem == 3 else ("copy", "lzma", "lzma2")):
+                    for header in ("plain", "encoded"):
+                        if layout == "solid":
+                            yield "7z", {"k": "plain", "n": nmem, "names": names, "layout": layout, "coder": coder, "header": header}, ["direct"]
+                        for folder in range(sevenz_folders(ns, layout)):
+                            for mode in ("single", "chain"):
+                                yield "7z", {"k": "enc", "n": nmem, "names": names, "layout": layout, "coder": coder, "header": header, "folder": folder, "mode": mode}, \
+                                    all_seams if (coder == "copy" and header == "plain" and mode == "chain") else ["direct"]
+    # an AES folder (one stream) whose DECLARED size is over the reader's per-member limit: dropped by the pre-filter too
+    for nmem in range(1, 3 if q else 4):
+        for layout in (("solid",) if nmem == 1 else ("per_file", "two_folders") if nmem == 3 else ("per_file",)):
+            for folder in range(sevenz_folders(nmem, layout)):
+                if layout == "two_folders" and folder == 0:
+                    continue            # two streams in that folder
+                for coder in (("copy",) if q else ("copy", "lzma2")):
+                    for header in ("plain", "encoded"):
+                        yield "7z", {"k": "plain", "n": nmem, "layout": layout, "coder": coder, "header": header, "folder": folder, "declared": "over"}, ["direct"]
+                        for mode in ("single", "chain"):
+                            yield "7z", {"k": "enc", "n": nmem, "layout": layout, "coder": coder, "header": header, "folder": folder, "mode": mode, "declared": "over"}, \
+                                all_seams if header == "plain" else ["direct"]
     # ---- EPUB
     for nch in range(1, 4):
         for target in list(range(nch)) + ["all"]:
@@ -1518,6 +1734,20 @@ def run(ctx):
                       "epub_mixed_encryption_xml": "content documents 1..%d x {none, aes128-cbc, aes256-cbc, aes256-gcm, no EncryptionMethod} each x font {none, idpf, adobe, aes256-cbc} x "
                                                    "entry order x namespace spelling x rights.xml (n = 1)" % (2 if ctx.quick else 3),
                       "ooxml_shell": "8 stream subsets x sizes x CFB versions x 3 readers",
+                      "xls_stream_spellings": ", ".join(XLS_SPELLINGS) + " x {FILEPASS at index " + ("1, last" if ctx.quick else "every index (small workbook) / 1, last (large)")
+                                              + ", 4 other FILEPASS payloads at 1, plain} x {small, large workbook}; look-alike 'all'"
+                                              + ("" if ctx.quick else "; 17 neighbour record numbers at 1"),
+                      "cfb_entry_name_case": "{upper, lower, swapcase} x {each encryption-relevant entry alone, all entries} x " +
+                                             ("ooxml shells {all three streams, EncryptedPackage only} x 3 readers; ppt {encrypted, keep_docprops, plain (all entries)}; "
+                                              "3 doc fixtures x fEncrypted toggled / not x WordDocument" if ctx.quick else
+                                              "ooxml shells (7 non-empty stream subsets x CFB versions 3, 4) x 3 readers; ppt {encrypted, keep_docprops, plain} x 2 layouts; "
+                                              "3 doc fixtures x fEncrypted toggled / not x {WordDocument, all}"),
+                      "7z_member_names": ("words over {%s} of length 1..2, coder copy" % ",".join(SEVENZ_KINDS_QUICK) if ctx.quick else
+                                          "words over {%s} of length 1..2 (3 coders) and over {%s} of length 3 (copy, lzma2)" % (",".join(SEVENZ_KINDS_ALL), ",".join(SEVENZ_KINDS_QUICK)))
+                                         + " except all-t / no stream, x layouts x AES folder k x {single, chain} x {plain, encoded header}; the same without AES (solid)",
+                      "7z_declared_size": "AES folder of one stream declaring %d bytes (members 1..%d, per_file / two_folders, every such folder) and the same without AES"
+                                          % (SEVENZ_OVER_LIMIT, 2 if ctx.quick else 3),
+                      "zip_member_kinds": "t, b, h, s, z (nested archive), m (__MACOSX) at position k of 1..3 x 4 mechanisms x methods 0, 8",
                       "doc_fib_bits": ("every bit of the 32-byte FibBase (256)" if not ctx.quick else "flags word 0x0A (16) + flag byte 0x13 (8) + lKey 0x0E (32)")
                                       + " flipped alone and together with fEncrypted, on each of the 3 .doc fixtures; all other flag-word bits at once",
                       "zip_flag_bits": "general purpose bits 1..15 alone and with bit 0, on member k of 1..3, methods 0 and 8",
@@ -1556,6 +1786,12 @@ def run(ctx):
                 "ZIP: flag bit 0 on a non-directory member (supported, unsupported, hidden or nested name) makes the archive encrypted; "
                 "unsupported method / bad CRC / data-descriptor / UTF-8 flag members are plain",
                 "7z: a 7zAES coder in any folder or in the encoded header's folder (7z -mhe) makes the archive encrypted (libarchive agrees)",
+                "7z: that holds whatever the members of the AES folder are called and however large they are declared (unsupported type, hidden, "
+                "nested archive, __MACOSX, over the per-member limit) and whatever else the archive holds (plain folders with extractable members, "
+                "empty files): the input is 'encrypted of container kind 7z' (7z l -slt reports Encrypted = + for such members)",
+                "compound files: directory entry names compare case-insensitively ([MS-CFB] 2.6.4), so a file whose entry names differ from the "
+                "usual spelling in case only (Workbook / WORKBOOK, EncryptedPackage / ENCRYPTEDPACKAGE, WordDocument / worddocument ...) is the same "
+                "document: encrypted stays encrypted, plain stays plain (the library's readers - olefile, xlrd - look names up case-insensitively)",
                 "EPUB: EncryptedData for a content document, or META-INF/rights.xml, or both = DRM-protected; an encryption.xml without "
                 "EncryptedData, files of those names outside META-INF and the words in text are plain",
                 "EPUB: an EncryptedData entry whose EncryptionMethod is a cipher (xmlenc aes128-cbc / aes256-cbc, xmlenc11 aes256-gcm) or absent on any "
